@@ -5,6 +5,7 @@ package main
 // claim and is listed in the evidence (Exec.stubs).
 
 import (
+	"sort"
 	"fmt"
 	"go/types"
 	"math"
@@ -482,6 +483,76 @@ func (e *Exec) intrinsic(fn *ssa.Function, name string, args []Value) (Value, bo
 		return Tuple{mkI64(0), Iface{}}, true
 
 	// ----- sort
+	case "sort.Ints", "slices.Sort[[]int64 int64]", "slices.Sort[[]int int]":
+		sl := args[0].(Slice)
+		if sl.Len > 8 {
+			e.unsupported("%s on %d elements", name, sl.Len)
+		}
+		e.stubs["sort.Ints / slices.Sort on integers (n<=8): compare-exchange network"] = true
+		if sl.Len > 1 {
+			e.noteWrite(sl.Arr, "sort")
+			arr := sl.Arr.v.(Array)
+			for i := 0; i < sl.Len; i++ {
+				for j := 0; j+1 < sl.Len-i; j++ {
+					a, b := arr.E[sl.Off+j].(Int), arr.E[sl.Off+j+1].(Int)
+					c := iCmp("<=", a, b)
+					arr.E[sl.Off+j] = e.nmI(iIte(c, a, b))
+					arr.E[sl.Off+j+1] = e.nmI(iIte(c, b, a))
+				}
+			}
+		}
+		return nil, true
+	case "sort.Strings", "sort.Slice", "sort.SliceStable", "slices.Sort[[]string string]":
+		sl, ok := args[0].(Slice)
+		if !ok {
+			if iv, isI := args[0].(Iface); isI { // sort.Slice takes interface{}
+				sl, ok = iv.V.(Slice)
+			}
+		}
+		if !ok {
+			e.unsupported("%s on %T", name, args[0])
+		}
+		if sl.Len <= 1 {
+			return nil, true
+		}
+		arr := sl.Arr.v.(Array)
+		allLit := name == "sort.Strings" || strings.HasPrefix(name, "slices.Sort")
+		if allLit {
+			for k := 0; k < sl.Len; k++ {
+				if st, isS := arr.E[sl.Off+k].(Str); !isS || !st.isLit() {
+					allLit = false
+				}
+			}
+		}
+		e.noteWrite(sl.Arr, "sort")
+		if allLit {
+			vals := make([]string, sl.Len)
+			for k := range vals {
+				vals[k] = arr.E[sl.Off+k].(Str).litVal()
+			}
+			sort.Strings(vals)
+			for k := range vals {
+				arr.E[sl.Off+k] = lit(vals[k])
+			}
+			return nil, true
+		}
+		if sl.Len > 4 {
+			e.unsupported("%s on %d symbolic elements (the order model forks over all permutations, bound 4)", name, sl.Len)
+		}
+		// over-approximation: the sorted order of symbolic elements is SOME permutation (all are explored); a proof
+		// covers the real order, a counterexample is replayed natively like any other
+		e.stubs["sort.Strings / sort.Slice on symbolic elements (n<=4): the result is an arbitrary permutation of the elements (every permutation explored)"] = true
+		rest := make([]Value, sl.Len)
+		copy(rest, arr.E[sl.Off:sl.Off+sl.Len])
+		var out []Value
+		for len(rest) > 1 {
+			pick := e.chooseFree(len(rest))
+			out = append(out, rest[pick])
+			rest = append(rest[:pick], rest[pick+1:]...)
+		}
+		out = append(out, rest[0])
+		copy(arr.E[sl.Off:sl.Off+sl.Len], out)
+		return nil, true
 	case "sort.Float64s":
 		sl := args[0].(Slice)
 		if sl.Len > 8 {
